@@ -351,6 +351,8 @@ class Evaluator:
                 if -len(base) <= idx < len(base):
                     return base[idx]
                 raise IndexOutOfRange(norm(n), idx, len(base))
+            if base is None:
+                raise Raised("TypeError(NoneType is not subscriptable)")
             raise Undecided(f"subscript {norm(n)}")
         if isinstance(n, ast.Call):
             return self.call(n, env)
@@ -403,6 +405,8 @@ class Evaluator:
             return self.iterate(v.resolver(v, "__iter__")())
         if isinstance(v, dict):
             return list(v)
+        if v is None or isinstance(v, (bool, int)):
+            raise Raised(f"TypeError({type(v).__name__} object is not iterable)")
         raise Undecided("iteration over abstract value")
 
     def bind(self, t: ast.AST, v: Any, env: Dict[str, Any]) -> None:
